@@ -50,8 +50,56 @@ def splat_protocol(call: ast.Call) -> str:
     return "other"
 
 
+def serializer_loop_count(ctx, rep):
+    """C03.5: once the trace has started the serialiser emits a loop body exactly loop.iterations times."""
+    ix, T = ctx.ix, ctx.typer
+    from ..fieldflow import FuncFlow
+    rep.rule("C03.5", "once the trace has started, the serialiser emits the body of a loop exactly `loop.iterations` times (zero times for a count of zero)", floor=1)
+    ser = ix.cls("jaqalpaq.core.algorithm.walkers.TraceSerializer")
+    vl = ser.methods.get("visit_LoopStatement")
+    if vl is None:
+        raise AnalysisError("C03.5: TraceSerializer.visit_LoopStatement vanished")
+    loop = vl.params[1]
+    fl = FuncFlow(ix, T, vl)
+    cons = construct_of(vl, "body-count")
+
+    def is_body_visit(n):
+        return isinstance(n, (ast.YieldFrom, ast.Yield)) and n.value is not None and any(
+            isinstance(m, ast.Attribute) and m.attr == "statements" and isinstance(m.value, ast.Name) and m.value.id == loop for m in ast.walk(n.value))
+    visits = [n for n in walk_no_nested(vl.node) if is_body_visit(n)]
+    if not visits:
+        rep.violation("C03.5", cons, "the loop handler never emits the loop body", vl.loc())
+        return
+    problems = []
+    for v in visits:
+        tests = fl.control_tests(v)
+        reads_started = any(isinstance(m, ast.Attribute) and m.attr == "started" for t in tests for m in ast.walk(t))
+        # enclosing for-range
+        node, rng = v, None
+        while node is not None:
+            node = fl.parent.get(id(node))
+            if isinstance(node, ast.For) and isinstance(node.iter, ast.Call) and isinstance(node.iter.func, ast.Name) and node.iter.func.id == "range":
+                rng = node
+                break
+        if not reads_started:
+            problems.append((v, "is emitted whether or not the trace has started (at least once even for a count of zero)"))
+        elif rng is not None:
+            a = rng.iter.args
+            exact = len(a) == 1 and isinstance(a[0], ast.Attribute) and a[0].attr == "iterations" and isinstance(a[0].value, ast.Name) and a[0].value.id == loop
+            if not exact:
+                problems.append((v, f"is repeated `{ast.unparse(rng.iter)}` times, not `range({loop}.iterations)`"))
+    if problems:
+        v, why = problems[0]
+        rep.violation("C03.5", cons, f"`{ast.unparse(v)}` {why}: the emulated unitary contains the body a different number of times than the program executes it", f"{vl.path}:{v.lineno}")
+    else:
+        rep.ok("C03.5", cons, "started: for _ in range(loop.iterations); not started: a single pass that looks for the trace start", vl.loc())
+
+
 def run(ctx, rep):
     ix, T = ctx.ix, ctx.typer
+    from .common import check_cached_mutables
+    check_cached_mutables(ctx, rep, "C03.6", ["jaqalpaq.emulator", "jaqalpaq.core"])
+    serializer_loop_count(ctx, rep)
     emu = ix.cls(EMU)
     ms = emu.methods.get("_make_subcircuit")
     if ms is None:
